@@ -465,7 +465,7 @@ func serveWith(hh http.Handler, q Req, preset []HV, invoked *int) (resp Resp) {
 	*invoked = 0
 	w.outerAppends = q.Shape%nShapes == 9
 	lastWriterNote = ""
-	clockTick("a request")
+	betweenSteps("a request")
 	hh.ServeHTTP(w, q.build())
 	fp := w.snapFP
 	if !w.snapped {
